@@ -377,7 +377,7 @@ def gen_types(ctx):
                     anns2 = special_names(rng, anns, mode)
                     if anns2 != anns:
                         out.append(('exhaustive-' + mode, build(sh, anns2, lts)))
-        n_random = 20000
+        n_random = 6000
     else:
         for n in range(1, 5):
             for sh in shapes(n):
@@ -468,9 +468,7 @@ def roundtrip_failure(t, v, im=None):
     if back != v:
         kind = 'to_parameters-returns-shadowed-name' if r[0] == spec_root_name(t) and r != want else 'roundtrip-differs'
         return kind, f'to_parameters gave ({r[0]}, {val_str(r[1])}); from_parameters of that gave {back if isinstance(back, str) else val_str(back)}'
-    if r != want:
-        return 'to_parameters-not-canonical', f'to_parameters gave ({r[0]}, {val_str(r[1])}), expected the deepest annotated branch ({want[0]}, {val_str(want[1])})'
-    return None
+    return None     # (whether the answer is the *deepest* annotated branch is compared with the mirror, it is not demanded by the property)
 
 
 def run(ctx):
@@ -493,7 +491,7 @@ def run(ctx):
         '`:type` annotations and multiple %annotations on one node are outside the generated domain',
     ]
     types = gen_types(ctx)
-    max_vals = 10 if ctx.tier == 'quick' else 12
+    max_vals = 10 if ctx.tier == 'quick' else 6
     lines, plan = [], []   # plan: (kind, payload, line index)
     impls = []
     for origin, t in types:
@@ -521,13 +519,15 @@ def run(ctx):
         if names:
             n = ctx.rng.choice(names)
             calls.append((n, ctx.rng.choice([('V', 3, 9), ('L', ('L', ('L', ('L', ('L', ('L', ('V', 1, 1))))))), ('R', ('V', 0, 0))]), 'ill-typed?'))
-        if len(calls) > 3 * max_vals:
-            calls = ctx.rng.sample(calls, 3 * max_vals)
+        if len(calls) > (3 * max_vals if ctx.tier == 'quick' else 8):
+            calls = ctx.rng.sample(calls, 3 * max_vals if ctx.tier == 'quick' else 8)
         entry['calls'] = calls
         for n, a, _ in calls:
             lines.append('from ' + toks + ' ' + ann_tok(n) + ' ' + ' '.join(val_toks(a)))
         impls.append(entry)
     model = ctx.model(lines)
+    if model and model[0] == 'unrecognised-source':
+        model = None     # the translator did not recognise the source (obligation already broken): oracle only
 
     def cmp(stream, desc, impl, idx):
         if model is not None and model[idx] != impl:
